@@ -33,7 +33,7 @@ BOUND = {
              'slice; molecules: M(2) C/O/N with radicals + charged + curated '
              '(full set for A, B, E, F; 45-molecule core for the rest)',
     'thorough': 'as quick with C x 40 constraints, D + 4-atom chains/stars/'
-                'squares, G on every C fragment, molecules M(3) C/O/N with '
+                'squares, G on a 4000-fragment slice, molecules M(3) C/O/N with '
                 'radicals (full set) and a 150-molecule core'}
 RULE = ('every fragment of the families x every molecule of the set is read '
         'and matched by the implementation and by the reference; compared is '
@@ -237,11 +237,11 @@ def run_shard(shard, tier):
             R.sample(dict(family='F', scheme=lib, text=t), limit=1)
     elif fam == 'G':
         src = list(F.family_C(sub))
-        if tier == 'quick':
-            step = max(1, len(src) // 300)
-            src = src[::step][:300]
+        want = 300 if tier == 'quick' else 4000
+        step = max(1, len(src) // want)
+        src = src[::step][:want]
         for f in chunks(src, i, n):
-            base = run_text(R, 'G', F.render(f), core())
+            base = run_text(R, 'G', F.render(f), molset('core', 'quick'))
             if base is None:
                 continue
             for lay in F.LAYOUTS:
@@ -249,7 +249,8 @@ def run_shard(shard, tier):
                     if (lay, lab) == ('line', 'a'):
                         continue
                     run_text(R, 'G', F.render(f, lay, lab, name='Q_%s' % lab[:1]),
-                             core(), base=base, base_text=F.render(f))
+                             molset('core', 'quick'), base=base,
+                             base_text=F.render(f))
     if R.evals and not R.samples:
         R.sample(dict(family=fam, shard=i))
     return R
